@@ -1003,25 +1003,25 @@ def check_C06(tier, seed):
     gens = []
     if tier == "quick":
         n, act, fill = spread(2, 2)
-        gens.append(("rb2", gen_cfg(n, act, fill, pre=("kv", "bucket", "nest"), ends=("drop", "droprerun"),
+        gens.append(("rb2", gen_cfg(n, act, fill, pre=("kv", "bucket", "nest"), ends=("drop", "droprerun", "dropchurn"),
                                     acts=("keep", "put", "del", "delb", "delsubdelb", "mkb"), tails=("none", "delpath")),
                      ["two"]))
         n, act, fill = spread(3, 14)
         gens.append(("rb3f14", gen_cfg(n, act, fill, ends=("drop", "droprerun")), ["three"]))
         runs = [dict(profile=p, seed=seed * 100 + i, n=5, len=70, nkeys=12, nvals=4,
                      args=["--readback", "0", "--hashes", "1", "--p-rollback", "8", "--max-readers", "2",
-                           "--presized-pages", "1024"] + extra)
+                           "--presized-pages", "1024", "--ro-mutators", "70"] + extra)
                 for i, (p, extra) in enumerate([("two", []), ("overflow", ["--presized", "0"]), ("three", [])])]
     else:
         n, act, fill = spread(4, 2)
-        gens.append(("rb4", gen_cfg(n, act, fill, pre=("kv", "bucket", "nest"), ends=("drop", "droprerun"),
+        gens.append(("rb4", gen_cfg(n, act, fill, pre=("kv", "bucket", "nest"), ends=("drop", "droprerun", "dropchurn"),
                                     acts=("keep", "put", "del", "delb", "delsubdelb", "mkb"), tails=("none", "delpath")),
                      ["two", "overflow"]))
         n, act, fill = spread(5, 16)
         gens.append(("rb5f16", gen_cfg(n, act, fill, ends=("drop", "droprerun")), ["three", "longkey"]))
         runs = [dict(profile=p, seed=seed * 1000 + i * 10 + j, n=10, len=110, nkeys=nk, nvals=4,
                      args=["--readback", "0", "--hashes", "1", "--p-rollback", "8", "--max-readers", "3",
-                           "--presized-pages", "2048"] + extra)
+                           "--presized-pages", "2048", "--ro-mutators", "70"] + extra)
                 for i, (p, extra) in enumerate([("two", []), ("overflow", ["--presized", "0"]), ("three", []),
                                                 ("hibytes", []), ("empty", ["--presized", "0"])])
                 for j, nk in enumerate([10, 30])]
@@ -1110,16 +1110,28 @@ def check_C16(tier, seed):
     for b in behs:
         b["steps"] = [x for x in b["steps"] if x.get("a") != "check"]
     tot = dict(replays=0, steps=0, configs=[])
+    # a bucket of 8 keys: with 300-byte keys (profile three) and 1 KiB pages its root is a branch of four entries that
+    # does not fit one page (an overflow run below a branch page)
+    n, act, fill = spread(2, 6)
+    beh3, s3, t3 = kv.gen_behaviours("o2f6", gen_cfg(n, act, fill, pre=("kv",), ends=("commit", "reopen")), workers=6)
+    for b in beh3:
+        b["steps"] = [x for x in b["steps"] if x.get("a") != "check"]
+    s1 += s3
+    t1 += t3
+    # every other configuration with the profile that has the empty key, the empty bucket name and the empty value,
+    # every third one with 300-byte keys; the combinations (smallest page sizes, strict) x (empty, three) explicitly
+    rows = [dict(r, profile=("overflow", "empty", "three")[ri % 3]) for ri, r in enumerate(rows)]
+    rows += [dict(pagesize=ps, num_pages=4, strict=1, populate=0, profile=pf) for ps in (1024, 1032) for pf in ("empty", "three")]
     for ri, r in enumerate(rows):
         big = r["pagesize"] >= 65536
         sub = behs[::6] if big else behs
         if r["pagesize"] * r["num_pages"] > 300 * 1024 * 1024:
             sub = sub[:20]
+        prof = r["profile"] if r["pagesize"] <= 4096 else "flat"
+        if prof == "three":
+            sub = beh3[::2] + sub[::2]
         args = ["--pagesize", r["pagesize"], "--num-pages", r["num_pages"], "--strict", r["strict"], "--populate", r["populate"]]
-        # (every other configuration with the profile that has the empty key, the empty bucket name and the empty value)
-        # ... and every third one with 300-byte keys: branch pages that span more than one page at the small sizes)
-        nrep, nst = kv.replay_behaviours(v, sub, [("overflow", "empty", "three")[ri % 3] if r["pagesize"] <= 4096 else "flat"],
-                                         "C16-%d-%d" % (r["pagesize"], r["num_pages"]), extra_args=args, jobs=8)
+        nrep, nst = kv.replay_behaviours(v, sub, [prof], "C16-%d-%d-%d" % (r["pagesize"], r["num_pages"], ri), extra_args=args, jobs=8)
         tot["replays"] += nrep
         tot["steps"] += nst
         tot["configs"].append(dict(r, histories=len(sub)))
